@@ -19,8 +19,8 @@ func init() {
 			"or a bare ChannelQueue, configurations (capacity, buffer maximum, intervals) drawn per run, optional fill-only runs; then a fair settle phase in which the main thread repeatedly calls Poll/TakeWithTimeout; " +
 			"oracles over the stamped history: invented/duplicate/lost, real-time FIFO, bound, non-blocking, error necessity, timeout honesty, conservation, nothing stranded (capacity>=1); " +
 			"non-trivial = a producer call and a consumer call overlapped or the overflow list was certainly used; distinct = distinct context-switch signature",
-		Real: []string{"fpgo.BufferedChannelQueue incl. loadFromPool/freeNodePool goroutines", "fpgo.ChannelQueue", "fpgo.LinkedListQueue (overflow list)", "Go channels, RWMutex (probed), timers on the fake clock"},
-		Stub: []string{"goroutine scheduler", "clock", "sync.Pool"},
+		Real:        []string{"fpgo.BufferedChannelQueue incl. loadFromPool/freeNodePool goroutines", "fpgo.ChannelQueue", "fpgo.LinkedListQueue (overflow list)", "Go channels, RWMutex (probed), timers on the fake clock"},
+		Stub:        []string{"goroutine scheduler", "clock", "sync.Pool"},
 		Assumptions: []string{"the nothing-stranded clause is evaluated for channelCapacity>=1 only (as the property states)"},
 	})
 }
@@ -245,7 +245,11 @@ func (sc *c07Scenario) Run(s *simrt.Sim) {
 	}
 	prodDone := allDone(prods)
 	// producers on a bare ChannelQueue may be blocked in Put until somebody receives
-	s.WaitUntilTimeout(prodDone, 30*time.Second)
+	if sc.Fill {
+		s.WaitUntil(prodDone) // Offer never blocks; nobody may consume before the fill is over
+	} else {
+		s.WaitUntilTimeout(prodDone, 30*time.Second)
+	}
 	s.SetFair(true)
 	pause := 3*sc.LoadDur + time.Millisecond
 	remaining := func() int {
